@@ -207,6 +207,8 @@ STRINGS = [
     "range: 5 - \n10",
     # look like a time/date-time WITH a zone offset: the PVL decoder knows no offsets, the default loader does
     "12:00+01", "12:00-07", "2001-001T12:00-05:30", "2001-01-01T10:00-03",
+    # a comment END delimiter without the begin delimiter; block keywords only some grammars know
+    "calib*/", "Begin_Object", "BEGIN_GROUP",
 ]
 
 # long sentence of hyphenated compounds (no white space after any hyphen); padded variants put some compound
